@@ -94,7 +94,7 @@ func c05Links() []TNode {
 	add("src-evil/sub/back", "../../src/a", "s")
 	add("src/m", "../out/f", "../out/dir", "a", "l")
 	add("out/dir/l", "../../src/a", "g", "../f", "../../out2/h", "../../out2", "../../src/d", "<W>/src/a", "<W>/out/dir/g")
-	add("src/le", "../ou2/sub") // an EMPTY directory outside the tree
+	add("src/le", "../ou2/sub")                                                 // an EMPTY directory outside the tree
 	add("out/hop", "../ou2/sub")                                                // a directory link outside the tree ...
 	add("src/lp", "../out/hop/../h", "../out/hop/..", "../out/hop/../../src/a") // ... and targets that climb out of it again
 	add("src/here", ".", "d/..")                                                // a link to the root itself ...
@@ -231,6 +231,9 @@ func checkC02(arg PackArg, out PackOut) (mism []string, verdict bool) {
 func checkC20(out PackOut) (mism []string, verdict bool) {
 	if out.SetupErr != "" || out.Err != "" || out.Panic != "" {
 		return nil, false
+	}
+	if out.EarlierMetaChanged != "" {
+		mism = append(mism, "Meta.Files of an earlier call changed: "+out.EarlierMetaChanged)
 	}
 	if out.DecodeErr != "" {
 		return []string{"produced slug does not decode: " + out.DecodeErr}, true
